@@ -20,12 +20,19 @@ CONTENT_LENGTH from the headers and not duplicated as HTTP_*, every other header
 with comma-joined values and no invented HTTP_* keys, wsgi.url_scheme, wsgi.input == body, wsgi.version.
 The app is always called exactly once (a missing call / missing response = environ construction raised).
 Response: strict reader parse -> status code and reason == the app's, header multiset (names compared
-case-insensitively) == the app's plus Content-Length (== body length, not for 304) / Content-Type / Server
-only where absent, body == joined chunks, ``close()`` called exactly once; no uncaught-exception log.
+case-insensitively, order kept per name) == the app's, plus *optionally* Content-Length (then == body length) /
+Content-Type / Server only where the app gave none, nothing else added, body == joined chunks, ``close()`` called exactly once; no uncaught-exception log.
 EITHER: header names colliding after the CGI mapping (``X-A`` vs ``X_A``); HTTP/1.0 without Host
 (SERVER_NAME only has to be a non-empty string); a ``Connection`` response header added by the HTTP layer.
 HEAD requests are only generated with body-less apps (the DESIGN's EITHER class "HEAD answered with a body"
 is not generated).
+
+Corrections: the response-header clause used to REQUIRE the default Content-Length / Content-Type / Server headers
+(C47.response_default_header); the statement only tolerates them, so a container that adds none of them to e.g. a 204
+(RFC 9110 8.6) is fine.  Now: application headers unchanged (values and order per name) + optionally those three
+(Content-Length only with value == body length) where the application gave none; any other added header, or a changed /
+dropped application header, is a violation.  Extra CGI/server environ keys (e.g. SERVER_SOFTWARE) are tolerated; only
+invented HTTP_* keys and HTTP_CONTENT_TYPE / HTTP_CONTENT_LENGTH are forbidden.
 
 Known findings (open; the two suspected ones were confirmed, a third was found by the search):
   sig C47.environ_raises.host_port                 ``Host: name:`` (and a > 4300-digit port) -> int() raises in environ(), the app is
@@ -460,22 +467,29 @@ def run_case(ctx, case):
     if any(k == "connection" for k, _ in got):
         labels.add("connection_header_either")
         got = [(k, v) for k, v in got if k != "connection"]
-    anyval = []
-    if int(code) != 304 and "content-length" not in have:
-        want.append(("content-length", str(len(body))))
-        labels.add("default_content_length")
-    if int(code) != 304 and "content-type" not in have:
-        anyval.append("content-type")
-        labels.add("default_content_type")
-    if "server" not in have:
-        anyval.append("server")
-    for name in anyval:
-        vals = [v for k, v in got if k == name]
-        if len(vals) != 1:
-            ctx.fail("C47.response_default_header", dict(rdetail, name=name, values=vals))
-        got = [(k, v) for k, v in got if k != name]
-    if sorted(got) != sorted(want):
-        ctx.fail("C47.response_headers", dict(rdetail, want=sorted(want), got=sorted(got)))
+    # The application's headers must arrive unchanged (same values, same order per name).  On top of them
+    # the statement TOLERATES -- it does not require -- a default Content-Length (only with the right value),
+    # Content-Type and Server where the application supplied none; nothing else may be added.
+    app_by, got_by = {}, {}
+    for k, v in want:
+        app_by.setdefault(k, []).append(v)
+    for k, v in got:
+        got_by.setdefault(k, []).append(v)
+    for name, vals in app_by.items():
+        if got_by.get(name, []) != vals:
+            ctx.fail("C47.response_headers", dict(rdetail, name=name, want=vals, got=got_by.get(name, [])))
+    for name, vals in got_by.items():
+        if name in app_by:
+            continue
+        if name not in ("content-length", "content-type", "server") or len(vals) != 1:
+            ctx.fail("C47.response_header_added", dict(rdetail, name=name, values=vals))
+        elif name == "content-length" and vals[0] != str(len(body)):
+            ctx.fail("C47.response_default_content_length", dict(rdetail, values=vals, body_len=len(body)))
+        else:
+            labels.add("default_" + name.replace("-", "_"))
+    for name in ("content-length", "content-type", "server"):
+        if name not in app_by and name not in got_by:
+            labels.add("no_default_" + name.replace("-", "_"))
     if spec["style"] == "closeable" and record["closed"] != 1:
         ctx.fail("C47.close_not_called_once", dict(rdetail, closed=record["closed"]))
     labels.add("status_%s" % code)
